@@ -98,6 +98,7 @@ type Config struct {
 	MaxSteps   int64
 	MaxDepth   int
 	ModulePath string
+	RepoDir    string
 }
 
 type Violation struct {
@@ -161,6 +162,8 @@ type Interp struct {
 	insecureTaint  map[int32]bool
 	fallbacks      map[string]*Solver
 	prefers        []*Term
+	crcStreams     map[*Loc][]*Term
+	randPre        []*Term // pre-allocated math/rand draws (nd.RandInts)
 	abstractArith  bool    // nd.AbstractArith(): see Solver.Abstract
 	absSolver      *Solver // lazily started abstract-arithmetic solver
 	feasQuery      bool    // the current check is a branch-feasibility query
@@ -209,6 +212,8 @@ func (in *Interp) resetPath(prefix []int) {
 	in.insecureTaint = map[int32]bool{}
 	in.prefers = nil
 	in.abstractArith = false
+	in.randPre = nil
+	in.crcStreams = nil
 }
 
 func (in *Interp) end(status, msg string) {
@@ -249,7 +254,9 @@ func (in *Interp) posOf(ins ssa.Instruction) string {
 	}
 	ps := in.prog.Fset.Position(p)
 	f := ps.Filename
-	if i := strings.Index(f, "/repo/"); i >= 0 {
+	if rd := in.cfg.RepoDir; rd != "" && strings.HasPrefix(f, rd+"/") {
+		f = f[len(rd)+1:]
+	} else if i := strings.Index(f, "/repo/"); i >= 0 {
 		f = f[i+6:]
 	} else if i := strings.LastIndex(f, "/src/"); i >= 0 {
 		f = f[i+5:]
@@ -626,6 +633,13 @@ func (in *Interp) drawValue(d Draw, m Model) string {
 	}
 	if d.Kind == "choose" {
 		return d.Val
+	}
+	if d.Kind == "randints" {
+		var parts []string
+		for _, t := range d.vars {
+			parts = append(parts, get(t).String())
+		}
+		return strings.Join(parts, ",")
 	}
 	if len(d.vars) == 1 {
 		return get(d.vars[0]).String()
